@@ -709,6 +709,10 @@ fn index_query(_tier: &str) -> Result<String, String> {
         let recs: Vec<sam::alignment::RecordBuf> = rd.record_bufs(&header).collect::<Result<_, _>>().map_err(|e| format!("sam: {e}"))?;
         { let mut w = noodles_bam::io::Writer::new(std::fs::File::create(&bam_path).map_err(|e| format!("create: {e}"))?); w.write_header(&header).map_err(|e| format!("write_header: {e}"))?; for r in &recs { w.write_alignment_record(&header, r).map_err(|e| format!("write: {e}"))?; } w.try_finish().map_err(|e| format!("finish: {e}"))?; }
         let key = |r: &sam::alignment::RecordBuf| format!("{}", r.name().map(|n| n.to_string()).unwrap_or_default());
+        let mut truth: BTreeMap<String, (usize, usize)> = BTreeMap::new();
+        for (i, (s, span)) in feats.iter().enumerate() { truth.insert(format!("r{i}"), (*s, s + span - 1)); }
+        for i in 0..300 { truth.insert(format!("m{i}"), (1 + i * 7, 1 + i * 7 + 9)); }
+        truth.insert("pu".into(), (5000, 5000));   // a placed unmapped read occupies its position (as in samtools)
         let bai = noodles_bam::fs::index(&bam_path).map_err(|e| format!("bam::fs::index: {e}"))?;
         noodles_bam::bai::fs::write(dir.join("a.bai"), &bai).map_err(|e| format!("bai write: {e}"))?;
         let bai2 = noodles_bam::bai::fs::read(dir.join("a.bai")).map_err(|e| format!("bai read: {e}"))?;
@@ -727,7 +731,8 @@ fn index_query(_tier: &str) -> Result<String, String> {
             for refname in ["sq0", "empty", "sq2"] { let rid = header.reference_sequences().get_index_of(refname.as_bytes()).unwrap();
                 for region in regions_for(refname) {
                     if refname != "sq0" && region.interval().start().map(usize::from).unwrap_or(1) > 100_000 { continue; }
-                    let expected: Vec<String> = recs.iter().filter(|r| r.reference_sequence_id() == Some(rid) && match (r.alignment_start(), r.alignment_end()) { (Some(s), Some(e)) => region.interval().intersects((s..=e).into()), _ => false }).map(key).collect();
+                    // the spans come from the generator (start, reference span), not from the library's alignment_end
+                    let expected: Vec<String> = recs.iter().filter(|r| r.reference_sequence_id() == Some(rid)).filter_map(|r| { let k = key(r); let (s, e) = *truth.get(&k)?; if region.interval().intersects((p(s)..=p(e)).into()) { Some(k) } else { None } }).collect();
                     queries += 1;
                     match query(&region) { Ok(got) => if got != expected { let missing: Vec<&String> = expected.iter().filter(|x| !got.contains(x)).collect(); let extra: Vec<&String> = got.iter().filter(|x| !expected.contains(x)).collect();
                             let what = if !missing.is_empty() { "omits records a scan keeps" } else if !extra.is_empty() { "returns records a scan drops" } else { "returns the records in a different order or more than once" };
@@ -770,11 +775,14 @@ fn index_query(_tier: &str) -> Result<String, String> {
             { let mut w = vcf::io::Writer::new(noodles_bgzf::io::Writer::new(std::fs::File::create(&vpath).map_err(|e| format!("create: {e}"))?)); w.write_header(&header).map_err(|e| format!("write_header: {e}"))?; for r in &recs { w.write_variant_record(&header, r).map_err(|e| format!("vcf write: {e}"))?; } w.get_mut().try_finish().map_err(|e| format!("finish: {e}"))?; }
             let bcf_ok = (|| -> Result<(), String> { let mut w = noodles_bcf::io::Writer::new(std::fs::File::create(&bpath).map_err(|e| format!("create: {e}"))?); w.write_header(&header).map_err(|e| format!("write_header: {e}"))?; for r in &recs { w.write_variant_record(&header, r).map_err(|e| format!("bcf write: {e}"))?; } w.try_finish().map_err(|e| format!("finish: {e}")) })();
             let key = |r: &vcf::variant::RecordBuf| r.ids().as_ref().iter().next().cloned().unwrap_or_default();
-            let span_end = |r: &vcf::variant::RecordBuf| -> Option<(noodles_core::Position, noodles_core::Position)> { use vcf::variant::Record as _; Some((r.variant_start()?, r.variant_end(&header).ok()?)) };
+            let mut vtruth: BTreeMap<String, (usize, usize)> = BTreeMap::new();
+            for (i, (s, span)) in feats.iter().enumerate() { vtruth.insert(format!("v{i}"), (*s, s + span - 1)); }
+            for i in 0..300 { vtruth.insert(format!("w{i}"), (1 + i * 7, 1 + i * 7 + 4)); }
             let tbi = vcf::fs::index(&vpath).map_err(|e| format!("vcf::fs::index ({fmt}): {e}"))?;
             noodles_tabix::fs::write(dir.join("v.tbi"), &tbi).map_err(|e| format!("tabix write: {e}"))?; let tbi2 = noodles_tabix::fs::read(dir.join("v.tbi")).map_err(|e| format!("tabix read: {e}"))?;
             let mut check = |what: &str, refname: &str, region: &noodles_core::Region, got: Result<Vec<String>, String>| {
-                let expected: Vec<String> = recs.iter().filter(|r| r.reference_sequence_name() == refname && match span_end(r) { Some((s, e)) => region.interval().intersects((s..=e).into()), None => false }).map(key).collect();
+                // the spans come from the generator, not from the library's variant_end
+                let expected: Vec<String> = recs.iter().filter(|r| r.reference_sequence_name() == refname).filter_map(|r| { let k = key(r); let (s, e) = *vtruth.get(&k)?; if region.interval().intersects((p(s)..=p(e)).into()) { Some(k) } else { None } }).collect();
                 queries += 1;
                 match got { Ok(got) => if got != expected { let missing: Vec<&String> = expected.iter().filter(|x| !got.contains(x)).collect(); let extra: Vec<&String> = got.iter().filter(|x| !expected.contains(x)).collect();
                         let w = if !missing.is_empty() { "omits records a scan keeps" } else if !extra.is_empty() { "returns records a scan drops" } else { "returns the records in a different order or more than once" };
